@@ -116,12 +116,13 @@ def runPar {R : Recoverable (List Int)} (c : PipeCfg) (cursors : List R.It) (sch
   match ParRun.run R c.f add (ParRun.init R sumCount.empty cursors) sched with
   | .error e => errObj e
   | .ok r =>
-    let rest := r.s.cursors.map fun it => (takeN R (R.size it + 1) it).1
+    -- per producer: for every source element it has not taken yet, the outputs the chain makes of it
+    let rest := r.s.cursors.map fun it => ((takeN R (R.size it + 1) it).1.map c.f)
     Json.mkObj [
       ("delivered", outsJson r.delivered),
       ("lost", outsJson r.lost),
       ("buf", outsJson r.s.buf),
-      ("rest", Json.arr (rest.map outsJson).toArray),
+      ("rest", Json.arr (rest.map fun sh => Json.arr (sh.map outsJson).toArray).toArray),
       ("agg", aggJson r.s.agg),
       ("err", Json.null)]
 
